@@ -63,11 +63,20 @@ UNITS = {
     'C07': {
         'functions': ['penman._lexer:TokenIterator.__bool__', 'penman._lexer:TokenIterator.error',
                       'penman._lexer:TokenIterator.peek', 'penman._lexer:TokenIterator.next',
-                      'penman._lexer:TokenIterator.expect', 'penman._lexer:TokenIterator.accept'],
+                      'penman._lexer:TokenIterator.expect', 'penman._lexer:TokenIterator.accept',
+                      'penman._parse:_parse', 'penman._parse:_parse_comments', 'penman._parse:_parse_node',
+                      'penman._parse:_parse_edge', 'penman._parse:_parse_triple'],
+        'thorough_functions': ['penman._parse:_parse_triples'],
         'regex': ['lexer', 'linebreak'],
         'lemmas': [],
         'level': 'other',
-        'explanation': 'Proved against the abstract view (remaining tokens, last token): every token request '
+        'explanation': 'Proved for every token sequence: the recursive-descent parser (_parse, _parse_comments, '
+                       '_parse_node, _parse_edge, _parse_triple; _parse_triples in the thorough tier) lets nothing but '
+                       'the decode error escape (no IndexError, AttributeError, StopIteration at the end of input), '
+                       'always consumes tokens (a node at least two, a branch at least one) and never invents any, '
+                       'and returns values of the documented shape (node = (variable or None, branches), branch = '
+                       '(role, None | text | node), metadata text to text).  '
+                       'Proved against the abstract view (remaining tokens, last token): every token request '
                        '(peek/next/expect/accept) returns the head of the remaining tokens and advances by one, converts '
                        'exhaustion into the decode error, and the error carries the line and column of the offending '
                        'token or, when the input runs out, the end of the last token returned; accept never raises.  '
@@ -77,11 +86,15 @@ UNITS = {
     'C19': {
         'functions': ['penman._format:format_triples', 'penman._lexer:TokenIterator.expect',
                       'penman._lexer:TokenIterator.accept', 'penman._lexer:TokenIterator.next',
-                      'penman._lexer:TokenIterator.peek', 'penman._lexer:TokenIterator.__bool__'],
+                      'penman._lexer:TokenIterator.peek', 'penman._lexer:TokenIterator.__bool__',
+                      'penman._parse:_parse_triple'],
+        'thorough_functions': ['penman._parse:_parse_triples'],
         'regex': ['lexer'],
         'lemmas': [],
         'level': 'other',
-        'explanation': 'Proved: format_triples writes one role(source, target) conjunct per triple, in order, colon '
+        'explanation': 'Proved: the conjunction parser (_parse_triple; _parse_triples in the thorough tier) lets nothing '
+                       'but the decode error escape and returns (source, role with its colon, target or None) triples '
+                       'of text; format_triples writes one role(source, target) conjunct per triple, in order, colon '
                        'stripped, joined by " ^" and a newline or blank (induction over the triple list); the token '
                        'iterator the conjunction parser is built on; TRIPLE_RE facts (":" "/" "~" are unexpected there, '
                        'STRING is a class of its own).  The round trip through _parse_triples and the spacing variants '
@@ -180,6 +193,9 @@ UNITS = {
                       'penman.model:Model.deinvert', 'penman.models.noop:NoOpModel.deinvert',
                       'penman.layout:_interpret_node', 'penman.layout:interpret',
                       'penman.tree:_nodes', 'penman.tree:Tree.nodes'],
+        # the parser hands the interpreter a tree of the shape its precondition asks for (thorough tier;
+        # the same functions are verified in the quick tier under C07)
+        'thorough_functions': ['penman._parse:_parse'],
         'lemmas': ['deinvert_laws', 'read_edges_step', 'read_edges_snoc', 'prefix_snoc', 'with_pop_is'],
         'level': 'other',
         'explanation': 'Proved, for every tree of the stated shape, every variable set and every model: '
